@@ -16,12 +16,16 @@ def bit_probes(rng, n):
     for _ in range(n):
         D = rng.choice([1, 2, 3])
         bits = [rng.choice(BITS) for _ in range(D)]
-        kind = rng.choice(["non-ancestor", "stop_gradient", "user-nop", "stop_gradient-deep"])
+        kind = rng.choice(["non-ancestor", "non-ancestor-evaluated", "stop_gradient", "user-nop", "stop_gradient-deep"])
         lines = ["D %d" % D, "param " + _graph.vec(rng, D), "param " + _graph.vec(rng, D), "graph", "P 0 0", "P 0 1"]
         # n0 = p0 (the protected parameter), n1 = p1
         if kind == "non-ancestor":
             lines += ["L 0 1,2 ; n1 n1", "I 0 " + _graph.vec(rng, D), "M 0 n2 n3"]        # n4, p0 unused
             target = 4
+        elif kind == "non-ancestor-evaluated":
+            # p0 has consumers, created before the target and already evaluated, but none is an ancestor of the target
+            lines += ["L 0 1;2 ; n0", "M 0 n2 n3", "L 0 1,2 ; n1 n1", "force n4", "force n3"]      # n2,n3,n4 from p0; n5 from p1
+            target = 5
         elif kind == "stop_gradient":
             lines += ["S 0 n0", "M 0 n2 n1"]                                                 # n3 = sg(p0) * p1
             target = 3
@@ -56,13 +60,16 @@ def run(chk):
             got = impl[-1]
             want = "ok " + ",".join(bits)
             if got != want:
-                cls = "non-ancestor" if kind == "non-ancestor" else "blocked-path"
+                cls = "non-ancestor" if kind.startswith("non-ancestor") else "blocked-path"
                 chk.report("graph:gradient-bits-changed:%s:%s" % (cls, kind),
                            "gradient of a parameter that is %s was preset to bits %s and is %s after backward()" % (
-                               "not an ancestor of the target" if kind == "non-ancestor" else "reachable only through a gradient blocker (%s)" % kind,
+                               "not an ancestor of the target" if kind.startswith("non-ancestor") else "reachable only through a gradient blocker (%s)" % kind,
                                ",".join(bits), got),
                            {"family": "graph", "harness": "h_graph", "harness_args": [dev], "stateful": True, "lines": lines,
                             "expected_last_line": want, "observed": got, "model_family": "graph"})
+    # accumulation through the built-in backward rules (each operand has a second, later-created consumer)
+    from props.C01 import grad_oracle
+    grad_oracle(chk, 2 if chk.tier == "quick" else 20)
     finish_obligations(chk)
     chk.trusted += ["modelled, not verified: Graph::backward is hand-modelled in Lean (Model/Graph.lean) and tied to graph.cc by the correspondence run",
                     "bit-level effects of adding an exact zero (-0.0 + 0.0, NaN) are outside the theorems (a ring has no signed zero); they are observed only by the bit probes on the implementation"]
